@@ -1,7 +1,10 @@
 package main
 
 import (
+	"context"
 	"fmt"
+	"github.com/cockroachdb/errors/errorspb"
+	"github.com/gogo/protobuf/proto"
 
 	"github.com/cockroachdb/errors/errbase"
 )
@@ -115,4 +118,34 @@ func mkUserMulti(r *R, causes []error) error {
 	r.S = []string{name, tstr, in(r, 0)}
 	r.N = []int{0}
 	return e
+}
+
+// UMultiPay: a multi-cause type whose registered encoder attaches a payload (the library's own
+// multi-cause type, join, has none): at a process that knows neither the type nor the payload's
+// message, the causes must still be carried.
+type UMultiPay struct {
+	msg    string
+	causes []error
+}
+
+func (e *UMultiPay) Error() string   { return e.msg }
+func (e *UMultiPay) Unwrap() []error { return e.causes }
+
+// registerUMultiPay registers the encoder / decoder pair for the duration of the cases that use the
+// type (the live registries are otherwise exactly the library's: C05 enumerates them).
+func registerUMultiPay() (cleanup func()) {
+	k := errbase.GetTypeKey(&UMultiPay{})
+	errbase.RegisterMultiCauseEncoder(k, func(_ context.Context, err error) (string, []string, proto.Message) {
+		return err.Error(), []string{"safe detail of UMultiPay"}, &errorspb.StringPayload{Msg: "payload of " + err.Error()}
+	})
+	errbase.RegisterMultiCauseDecoder(k, func(_ context.Context, causes []error, msg string, _ []string, payload proto.Message) error {
+		if sp, ok := payload.(*errorspb.StringPayload); !ok || sp.Msg != "payload of "+msg {
+			return nil
+		}
+		return &UMultiPay{msg, causes}
+	})
+	return func() {
+		errbase.RegisterMultiCauseEncoder(k, nil)
+		errbase.RegisterMultiCauseDecoder(k, nil)
+	}
 }
